@@ -445,7 +445,12 @@ func ruleServeHTTP(w *World, r *Run, ruleB, ruleC, ruleE string) {
 			}
 			// ---- C10.b
 			keyB := fnServeHTTP + " | limiter consulted before the body is read"
-			if len(al) != 1 || al[0].Recv != limiter {
+			if len(al) == 0 && limiterNilOnPath(s, limiter) && limiterAlwaysBuilt(w) {
+				// a guard for a handler built without a limiter: FeedBastion, the only place that builds handlers, always
+				// installs one, so this arm is not reachable in the assembled witness
+				r.Pass(ruleB, keyB+" | nil-limiter guard (unreachable: the constructor always installs a limiter)", w.pos(s.RetPos), "")
+				continue
+			} else if len(al) != 1 || al[0].Recv != limiter {
 				r.Fail(ruleB, keyB, w.pos(s.RetPos), "path does not consult the configured rate limiter exactly once")
 				continue
 			}
@@ -735,4 +740,53 @@ func requestPartsOK(s Summary, u Event, reqBody *Term) (bool, string) {
 		}
 	}
 	return true, ""
+}
+
+
+func limiterNilOnPath(s Summary, limiter *Term) bool {
+	k, isNil, _ := nilFact(s, limiter)
+	return k && isNil
+}
+
+var limiterBuiltCache = map[*World]int{}
+
+// limiterAlwaysBuilt: every path of FeedBastion that reaches the serving loop has stored the result of rate.NewLimiter in
+// the handler's limiter field.
+func limiterAlwaysBuilt(w *World) bool {
+	if v, ok := limiterBuiltCache[w]; ok {
+		return v == 1
+	}
+	limiterBuiltCache[w] = 0
+	fn := w.fn(fnFeedBastion)
+	if fn == nil {
+		return false
+	}
+	e := w.engine(3, 1)
+	e.opaque[fnConnect] = true
+	n := 0
+	for _, s := range e.Explore(fn) {
+		for _, c := range calls(s, fnConnect) {
+			n++
+			found := false
+			for _, a := range c.Args {
+				v := structArg(c, a)
+				if v == nil || v.Kind != "structval" {
+					continue
+				}
+				for _, f := range v.Args {
+					if len(f.Args) == 1 && f.Args[0] != nil && f.Args[0].Kind == "call" && strings.HasSuffix(f.Args[0].Name, "time/rate.NewLimiter") {
+						found = true
+					}
+				}
+			}
+			if !found {
+				return false
+			}
+		}
+	}
+	if n == 0 {
+		return false
+	}
+	limiterBuiltCache[w] = 1
+	return true
 }
